@@ -21,6 +21,21 @@ impl Socks5InitialRequest {
         Socks5InitialRequest { auth_methods }
     }
 }
+impl Socks5InitialRequest {
+    pub fn auth_methods(&self) -> &[Socks5AuthMethod] {
+        &self.auth_methods
+    }
+}
+
+/// The reply to a command this proxy does not implement (RFC 1928: REP = 07, zero address).
+pub struct Socks5CommandNotSupported;
+
+impl Socks5Message for Socks5CommandNotSupported {
+    fn encode(&mut self, dst: &mut BytesMut) {
+        dst.extend_from_slice(&[VERSION, 7, 0, 1, 0, 0, 0, 0, 0, 0]);
+    }
+}
+
 impl Socks5Message for Socks5InitialRequest {
     fn encode(&mut self, dst: &mut BytesMut) {
         dst.put_u8(VERSION);
